@@ -1002,7 +1002,11 @@ fn index_ops(e: &mut Vec<Entry>) {
                     for step in [None, Some(1i64), Some(2), Some(-1), Some(-2)] {
                         for axes in [None, Some(0i64), Some(-1)] {
                             for (init, mode) in value_modes() {
-                                let feat = format!("{mode}; {}", slice_feature(d, *st, *en, step.unwrap_or(1)));
+                                let feat = format!(
+                                    "{mode}; {}{}",
+                                    if axes.is_none() && step.is_some() { "axes omitted but steps given; " } else { "" },
+                                    slice_feature(d, *st, *en, step.unwrap_or(1))
+                                );
                                 let feat = feat.as_str();
                                 let mut ins = vec![TIn::f32("x", &[d]), vin("st", &[*st], init), vin("en", &[*en], init)];
                                 let mut names = vec!["x", "st", "en"];
